@@ -5,7 +5,8 @@ import KrroodVerif.Drive.SG
 C13 driver. Case: `(h <op> …)`. Observation `A|B`: `B` = the sorted census of every evaluated query, in order;
 `A` = `ok` when every census equals the live instances of the type known to the registry (ground truth: the model's
 heap here, the harness's own weak references on the implementation side), else the differences.
-`spec=ok|*`: the property demands agreement, whatever the instances are.
+`spec=ok|*`: the property demands agreement, whatever the instances are. `model=` the code as it is,
+`model_repaired=` every quirk off.
 -/
 namespace KrroodVerif.Drive.C13
 open KrroodVerif KrroodVerif.SG KrroodVerif.Drive.SG
@@ -46,12 +47,10 @@ def run (s : Sexp) : String :=
   | .list (.atom "h" :: xs) =>
     match parseOps xs with
     | some ops =>
-      -- F-C14-1/F-C20-2 are repaired in /repo (fix commit c18b52a): the model tied to the code is `Quirks.c14Fixed`
-      let m := obs (runD Quirks.c14Fixed ops).h.out
-      let mf := m
+      let m := obs (runD Quirks.asIs ops).h.out
       let mr := obs (runD Quirks.none ops).h.out
       let trig := joinTrig [(trigReeval ops, "F-C13-1"), (trigDiamond ops, "F-C13-2")]
-      s!"model={m}\tspec=ok|*\ttrig={trig}\tmodel_fixed={mf}\tmodel_repaired={mr}"
+      s!"model={m}\tspec=ok|*\ttrig={trig}\tmodel_repaired={mr}"
     | none => "error=bad-case"
   | _ => "error=bad-case"
 end KrroodVerif.Drive.C13
